@@ -7,7 +7,7 @@ RULE = ("controlled schedules (real threads, one runnable at a time; scheduling 
         "destructor's lifetime wait) of pools with 1-3 workers and 1-3 client threads issuing 1-6 submissions of the six kinds (co_await pool, "
         "co_await pool(awaitable), run(fn), run_detached, resume(suspend_point), run(async)) whose job bodies are lists of up to 4 pool "
         "operations (submit again / run_detached from a worker, stop() on the own pool, current::is_stopped(), current::any_enqueued(), "
-        "co_await thread_pool::current()), explicit stop() from clients, client threads calling worker(), destructor at the end (racing "
+        "co_await thread_pool::current(), waiting for the outcome of another submission), clients waiting for a submission, explicit stop() from clients, client threads calling worker(), destructor at the end (racing "
         "with job-issued stops); random, bursty, workers-first and clients-first schedules; every schedule prefix of length 5 over 3 choices "
         "for the two destructor-vs-job-stop configurations; thorough adds every prefix of length 8 for 9 small configurations; non-trivial = "
         "at least 3 thread switches in the executed trace and (a stop()/self-stop races with a submission or >= 2 submissions); distinct = "
@@ -21,6 +21,9 @@ ASSUMPTIONS = [
     "a job that called stop() on its own pool does not touch the pool afterwards (its worker is detached); bodies end with stop()",
     "a client thread that calls worker() relies on somebody else stopping the pool; if nobody does, the client program deadlocks itself "
     "(`user_stuck` in PoolLive.v) - the generator always adds such a stop",
+    "a job / client that waits for the outcome of a submission makes the program depend on it: programs with waits have >= 2 workers, one "
+    "waiting job, no stop() before the destructor, and client 0 waits for the awaited submission before destroying the pool (otherwise "
+    "the program deadlocks itself: `waits_for_submission` in PoolLive.v)",
     "interleaving at the granularity of critical sections of the pool mutex; sequentially consistent (the unlocked read of _exit in "
     "current::await_ready is a data race in the C++ sense; it is modelled as one atomic step); std::condition_variable modelled: notify_all "
     "flags the threads sleeping at that moment, notify_one adds an anonymous token (any sleeper may take it: covers every choice and "
